@@ -10,7 +10,6 @@ package file
 // A single-block reader's offset is never negative (Seek rejects such targets before storing).
 //@ typeinv file.singleNodeReader: 0 <= self.offset
 
-
 // ---------------------------------------------------------------------------------------------
 // C04: readers obey the io.ReadSeeker model. Machine arithmetic: offsets are required to stay
 // below 2^62 in magnitude (listed as an arithmetic assumption).
@@ -34,7 +33,8 @@ package file
 //@ ensures eof-at-or-past-end: nodeBytesErr(f.Node) == nil && old(f.offset) >= len(nodeBytes(f.Node)) ==> result == 0 && err == io.EOF && f.offset == old(f.offset)
 //@ ensures count: nodeBytesErr(f.Node) == nil && old(f.offset) < len(nodeBytes(f.Node)) ==> err == nil && result == min64(len(p), len(nodeBytes(f.Node)) - old(f.offset)) && f.offset == old(f.offset) + result
 //@ ensures content: nodeBytesErr(f.Node) == nil ==> (forall i int :: 0 <= i && i < result ==> p[i] == nodeBytes(f.Node)[old(f.offset) + i])
-//@ assigns f.offset, mem(p)
+//@ assigns f.offset, mem(p), drained(f)
+//@ at return ghost drained(f) = drained(f) || err == io.EOF
 
 //@ func (*file.shardNodeFile).AsLargeBytes
 //@ ensures no-load: loads == old(loads)
@@ -133,6 +133,7 @@ package file
 //@ func (*file.shardNodeReader).makeReader
 //@ loop 0 invariant skipped-children-are-not-opened: len(readers) == 0 ==> loads == old(loads)
 //@ domain well-sized: sizesOK(s.shardNodeFile) && sizesDeclared(s.shardNodeFile) && 0 <= s.offset && s.offset < (1 << 62)
+//@ domain links-is-a-list: isList(lookupStr(s.shardNodeFile.substrate, "Links"))
 //@ loop 0 invariant pos-algebra: 0 <= itpos(lnkIter) && itpos(lnkIter) <= itlen(lnkIter) && itlen(lnkIter) == nkids(s.shardNodeFile) && at == startOf(s.shardNodeFile, itpos(lnkIter))
 //@ inst pos-algebra: f: s.shardNodeFile
 //@ inst pos-algebra: i: itpos(lnkIter) - 1
@@ -173,6 +174,7 @@ package file
 //@ ensures resolved-means-no-request: old(d.lsys) == nil ==> loads == old(loads) && err == nil
 
 //@ func (*file.deferredReader).Read
+//@ at return ghost drained(d) = drained(d) || err == io.EOF
 //@ ensures load-failure-is-returned: err == nil ==> loadFailed == old(loadFailed)
 //@ ensures stays-unresolved-on-error: old(d.ReadSeeker) == nil && d.ReadSeeker == nil ==> err != nil && result == 0
 
@@ -180,7 +182,21 @@ package file
 //@ ensures resolve-error-is-returned: old(d.ReadSeeker) == nil && d.ReadSeeker == nil ==> err != nil
 
 //@ func (*file.shardNodeReader).Read
+//@ at return ghost drained(s) = drained(s) || err == io.EOF
 //@ domain well-sized: sizesOK(s.shardNodeFile) && sizesDeclared(s.shardNodeFile) && 0 <= s.offset && s.offset < (1 << 62)
+//@ domain links-is-a-list: isList(lookupStr(s.shardNodeFile.substrate, "Links"))
 //@ ensures position-advances-by-the-count: s.offset == old(s.offset) + result && 0 <= result && result <= len(p)
 //@ ensures load-failure-is-returned: err == nil ==> loadFailed == old(loadFailed)
 //@ ensures make-reader-error-is-returned: old(s.rdr) == nil && s.rdr == nil ==> err != nil && result == 0
+
+// Behavioural subtyping: these node types are maps / byte strings, never lists, so they answer
+// Kind() with a non-list kind and have no list iterator (the datamodel.Node interface contract
+// for both methods is checked here under that stated domain).
+//@ func (*file.deferred).Kind
+//@ domain not-a-list: !isList(d)
+//@ func (*file.deferred).ListIterator
+//@ domain not-a-list: !isList(d)
+//@ func (*file.shardNodeFile).Kind
+//@ domain not-a-list: !isList(s)
+//@ func (*file.shardNodeFile).ListIterator
+//@ domain not-a-list: !isList(s)
